@@ -17,13 +17,13 @@ HSRC = os.path.join(VERIF, "harness", "src")
 TARGET = os.environ.get("VERIF_TARGET", os.path.join(VERIF, ".target"))
 KANI_CRATE = os.path.join(VERIF, "kani")
 REPLAY_CRATE = os.path.join(VERIF, "replay")
-EVID = os.path.join(VERIF, "evidence")
+EVID = os.environ.get("VERIF_EVIDENCE", os.path.join(VERIF, "evidence"))
 KNOWN = os.path.join(VERIF, "known_findings.json")
 
 ENV = dict(os.environ)
 ENV["CARGO_NET_OFFLINE"] = "true"
 # shadow Kani bundle whose `cbmc` first relays out the GOTO binary (lib/gbf_relayout.py)
-KANI_HOME = os.path.join(TARGET, "kani-home")
+KANI_HOME = os.path.join(VERIF, ".target", "kani-home")  # shared by all target dirs
 ENV["KANI_HOME"] = KANI_HOME
 ENV.setdefault("CARGO_TERM_COLOR", "never")
 
@@ -151,6 +151,28 @@ def run_capped(cmd, cwd, cap_s, mem_gb, logfile, env=None):
 # ------------------------------------------------------------------------------------------
 # build
 # ------------------------------------------------------------------------------------------
+def materialise_crates():
+    """With VERIF_REPO pointing somewhere else than /repo (evaluation of seeded defects in scratch
+    worktrees, several at a time) the two harness crates are re-created under TARGET with their
+    path dependencies rewritten; the harness sources themselves are shared."""
+    global KANI_CRATE, REPLAY_CRATE
+    if os.path.realpath(REPO) == "/repo":
+        return
+    for name in ("kani", "replay"):
+        src = os.path.join(VERIF, name, "Cargo.toml")
+        dst_dir = os.path.join(TARGET, "crate-" + name)
+        os.makedirs(dst_dir, exist_ok=True)
+        t = open(src).read()
+        t = t.replace('"/repo/', '"' + REPO.rstrip("/") + "/")
+        t = t.replace('"../harness/', '"' + VERIF + "/harness/").replace('"../stubs/', '"' + VERIF + "/stubs/")
+        with open(os.path.join(dst_dir, "Cargo.toml"), "w") as f:
+            f.write(t)
+        if name == "kani":
+            KANI_CRATE = dst_dir
+        else:
+            REPLAY_CRATE = dst_dir
+
+
 def sync_lock(crate):
     """The harness crates resolve exactly the versions /repo's lock file pins."""
     src = os.path.join(REPO, "Cargo.lock")
@@ -167,6 +189,14 @@ def kani_cmd(target_dir, harness=None, extra=()):
 
 
 def ensure_kani_home():
+    import fcntl
+    os.makedirs(os.path.join(VERIF, ".target"), exist_ok=True)
+    with open(os.path.join(VERIF, ".target", ".home.lock"), "w") as lk:
+        fcntl.flock(lk, fcntl.LOCK_EX)
+        _ensure_kani_home()
+
+
+def _ensure_kani_home():
     if not all(os.path.exists(os.path.join(KANI_HOME, "kani-0.68.0", "bin", b)) for b in ("cbmc", "goto-cc", "kani-compiler")):
         subprocess.run([os.path.join(VERIF, "lib", "kani_home.sh"), VERIF], check=True)
 
@@ -420,6 +450,7 @@ def check_property(prop, tier, jobs, seed, mem_gb, only=None, write_evidence=Tru
     log(f"== {prop} tier={tier} seed={seed} harnesses={len(specs)} jobs={jobs} repo={REPO}")
     import fcntl
     os.makedirs(TARGET, exist_ok=True)
+    materialise_crates()
     lockf = open(os.path.join(TARGET, ".base.lock"), "w")
     fcntl.flock(lockf, fcntl.LOCK_EX)  # the base target dir is shared between concurrent ./check runs
     try:
@@ -588,6 +619,8 @@ def replay_file(prop, path):
     logdir = os.path.join(EVID, "logs", f"{prop}-replay")
     os.makedirs(logdir, exist_ok=True)
     rec = json.load(open(path))
+    os.makedirs(TARGET, exist_ok=True)
+    materialise_crates()
     bins = build_replay(logdir)
     if not bins:
         return 2
